@@ -1,4 +1,5 @@
 import Drv.Trunc
+import Drv.Walk
 /-!
 Line-protocol driver: one operation per line on stdin, one canonical answer line on stdout.
 Every engine exports `handle : List String → Option String` answering only its own ops;
@@ -7,7 +8,8 @@ the first engine that answers wins.  Unknown / malformed lines answer `bad-op` (
 open Proto
 
 def handlers : List (List String → Option String) := [
-  Drv.Trunc.handle
+  Drv.Trunc.handle,
+  Drv.WalkD.handle
 ]
 
 def dispatch (fs : List String) : Option String :=
